@@ -105,10 +105,10 @@ package service
 /*@ func types/service.PodsFilter$1
   props C17
   note the less function handed to sort.Slice (which calls it with indices in range): sources are ordered by namespace, then name - the order that makes the filter independent of the order of the arguments
-  requires [indices-in-range] (and (<= 0 {i}) (< {i} (slen {svcs})) (<= 0 {j}) (< {j} (slen {svcs})))
-  requires [sources-non-nil] (and (not (= (select (sarr {svcs}) {i}) vnil)) (not (= (select (sarr {svcs}) {j}) vnil)))
-  ensures [orders-by-namespace-then-name] (= result (or (strlt {svcs[i].ObjectMeta.Namespace} {svcs[j].ObjectMeta.Namespace})
-        (and (= {svcs[i].ObjectMeta.Namespace} {svcs[j].ObjectMeta.Namespace}) (strlt {svcs[i].ObjectMeta.Name} {svcs[j].ObjectMeta.Name}))))
+  requires [indices-in-range] (and (<= 0 {i}) (< {i} (slen {$free0})) (<= 0 {j}) (< {j} (slen {$free0})))
+  requires [sources-non-nil] (and (not (= (select (sarr {$free0}) {i}) vnil)) (not (= (select (sarr {$free0}) {j}) vnil)))
+  ensures [orders-by-namespace-then-name] (= result (or (strlt {$free0[i].ObjectMeta.Namespace} {$free0[j].ObjectMeta.Namespace})
+        (and (= {$free0[i].ObjectMeta.Namespace} {$free0[j].ObjectMeta.Namespace}) (strlt {$free0[i].ObjectMeta.Name} {$free0[j].ObjectMeta.Name}))))
 @*/
 
 /*@ immutable core/v1.Service.ObjectMeta
@@ -131,6 +131,10 @@ package service
        (forall ((j Int)) (=> (and (<= 0 j) (< j (slen t)) (mapNonEmpty (svc-sel (select (sarr t) j))))
             (exists ((q Int)) (and (<= 0 q) (< q m) (= (select e q) j)))))))
 (assert (forall ((t (Slice V))) (! (=> (>= (slen t) 0) (enumeratesSelecting (selIdxs t) (selCount t) t)) :pattern ((selCount t)))))
+; the same, with the witness named: selPos(t, j) is the rank of position j among the positions with a selector
+(declare-fun selPos ((Slice V) Int) Int)
+(assert (forall ((t (Slice V)) (j Int)) (! (=> (and (>= (slen t) 0) (<= 0 j) (< j (slen t)) (mapNonEmpty (svc-sel (select (sarr t) j))))
+    (and (<= 0 (selPos t j)) (< (selPos t j) (selCount t)) (= (select (selIdxs t) (selPos t j)) j))) :pattern ((selPos t j)))))
 ; C17: the child PodsFilter builds for one service with a selector: And(NSName(namespace/""), Labels(selector))
 (declare-fun svcChild (V V) Bool)
 (assert (forall ((f V) (s V)) (! (= (svcChild f s)
@@ -168,12 +172,12 @@ package service
   loop 1 inv [range] (and (<= 0 (+ {rangeindex} 1)) (<= (+ {rangeindex} 1) (slen {svcs})) (= (slen {svcs}) (slen {services})))
   loop 1 inv [svcs-valid] (forall ((j Int)) (=> (and (<= 0 j) (< j (slen {svcs})))
         (and (not (= (select (sarr {svcs}) j) vnil)) (not (= (obj-ns (select (sarr {svcs}) j)) |str!|)))))
-  at call(Slice).after assert [sorted-by-namespace-then-name] (sortedByKey {svcs})
-  at call(Slice).after assert [same-elements-as-the-arguments] (sameElements {svcs} {services})
-  at call(Slice).after assert [distinct-keys-preserved] (=> (distinctKeys {services}) (distinctKeys {svcs}))
-  at call(Slice).after assert [same-elements-as-the-canonical-order] (sameElements {svcs} (sortedSources {services}))
+  at call(Slice).after assert [step:sorted-by-namespace-then-name] (sortedByKey {svcs})
+  at call(Slice).after assert [step:same-elements-as-the-arguments] (sameElements {svcs} {services})
+  at call(Slice).after assert [step:distinct-keys-preserved] (=> (distinctKeys {services}) (distinctKeys {svcs}))
+  at call(Slice).after assert [step:same-elements-as-the-canonical-order] (sameElements {svcs} (sortedSources {services}))
   at call(Slice).after apply SORT-sorted-sequences-with-the-same-distinct-keyed-elements-agree (a {svcs}) (b (sortedSources {services}))
-  at call(Slice).after assert [is-the-canonical-order] (=> (distinctKeys {services}) (forall ((q Int)) (=> (and (<= 0 q) (< q (slen {svcs})))
+  at call(Slice).after assert [step:is-the-canonical-order] (=> (distinctKeys {services}) (forall ((q Int)) (=> (and (<= 0 q) (< q (slen {svcs})))
         (= (select (sarr {svcs}) q) (select (sarr (sortedSources {services})) q)))))
   loop 1 inv [sources-in-canonical-order] (=> (distinctKeys {services}) (forall ((q Int)) (=> (and (<= 0 q) (< q (slen {svcs})))
         (= (select (sarr {svcs}) q) (select (sarr (sortedSources {services})) q)))))
@@ -187,20 +191,29 @@ package service
   loop 1 inv [children-built-from-the-sorted-services] (forall ((q Int)) (=> (and (<= 0 q) (< q (slen {filters})))
         (svcChild (select (sarr {filters}) q) (select (sarr {svcs}) (select src q)))))
   at call(And).after assert [opt:child-of-this-service] (svcChild $result {svc})
-  at call(Or) assert [src-is-increasing] (increasing src (slen {filters}))
-  at call(Or) assert [src-points-at-services-with-a-selector-in-the-canonical-order] (=> (distinctKeys {services}) (forall ((q Int)) (=> (and (<= 0 q) (< q (slen {filters})))
+  at call(Or) assert [step:src-is-increasing] (increasing src (slen {filters}))
+  at call(Or) assert [step:src-points-at-services-with-a-selector-in-the-canonical-order] (=> (distinctKeys {services}) (forall ((q Int)) (=> (and (<= 0 q) (< q (slen {filters})))
         (and (<= 0 (select src q)) (< (select src q) (slen (sortedSources {services}))) (mapNonEmpty (svc-sel (select (sarr (sortedSources {services})) (select src q))))))))
-  at call(Or) assert [src-hits-every-service-with-a-selector-of-the-canonical-order] (=> (distinctKeys {services}) (forall ((j Int)) (=> (and (<= 0 j) (< j (slen (sortedSources {services}))) (mapNonEmpty (svc-sel (select (sarr (sortedSources {services})) j))))
+  at call(Or) assert [step:src-hits-every-service-with-a-selector-of-the-canonical-order] (=> (distinctKeys {services}) (forall ((j Int)) (=> (and (<= 0 j) (< j (slen (sortedSources {services}))) (mapNonEmpty (svc-sel (select (sarr (sortedSources {services})) j))))
         (and (<= 0 (select fidx j)) (< (select fidx j) (slen {filters})) (= (select src (select fidx j)) j)))))
-  at call(Or) assert [src-is-an-enumeration-of-the-canonical-order] (=> (distinctKeys {services}) (enumeratesSelecting src (slen {filters}) (sortedSources {services})))
-  at call(Or) assert [canonical-order-has-a-length] (and (>= (slen {services}) 0) (>= (slen (sortedSources {services})) 0))
-  at call(Or) assert [same-range-as-the-canonical-enumeration] (=> (distinctKeys {services}) (sameRange src (slen {filters}) (selIdxs (sortedSources {services})) (selCount (sortedSources {services}))))
+  at call(Or) assert [step:src-is-an-enumeration-of-the-canonical-order] (=> (distinctKeys {services}) (enumeratesSelecting src (slen {filters}) (sortedSources {services})))
+  at call(Or) assert [step:canonical-order-has-a-length] (and (>= (slen {services}) 0) (>= (slen (sortedSources {services})) 0))
+  at call(Or) assert [step:canonical-positions-have-a-selector] (forall ((p Int)) (=> (and (<= 0 p) (< p (selCount (sortedSources {services}))))
+        (and (<= 0 (select (selIdxs (sortedSources {services})) p)) (< (select (selIdxs (sortedSources {services})) p) (slen (sortedSources {services})))
+             (mapNonEmpty (svc-sel (select (sarr (sortedSources {services})) (select (selIdxs (sortedSources {services})) p)))))))
+  at call(Or) assert [step:every-canonical-position-is-hit-by-src] (=> (distinctKeys {services}) (forall ((p Int)) (=> (and (<= 0 p) (< p (selCount (sortedSources {services}))))
+        (and (<= 0 (select fidx (select (selIdxs (sortedSources {services})) p))) (< (select fidx (select (selIdxs (sortedSources {services})) p)) (slen {filters}))
+             (= (select src (select fidx (select (selIdxs (sortedSources {services})) p))) (select (selIdxs (sortedSources {services})) p))))))
+  at call(Or) assert [step:every-src-position-is-canonical] (=> (distinctKeys {services}) (forall ((p Int)) (=> (and (<= 0 p) (< p (slen {filters})))
+        (let ((q (selPos (sortedSources {services}) (select src p))))
+          (and (<= 0 q) (< q (selCount (sortedSources {services}))) (= (select (selIdxs (sortedSources {services})) q) (select src p)))))))
+  at call(Or) assert [step:same-range-as-the-canonical-enumeration] (=> (distinctKeys {services}) (sameRange src (slen {filters}) (selIdxs (sortedSources {services})) (selCount (sortedSources {services}))))
   at call(Or) apply ENUM-increasing-enumerations-of-the-same-set-agree (e1 src) (n1 (slen {filters})) (e2 (selIdxs (sortedSources {services}))) (n2 (selCount (sortedSources {services})))
   at call(Or) apply ENUM-increasing-enumerations-of-the-same-set-have-the-same-length (e1 src) (n1 (slen {filters})) (e2 (selIdxs (sortedSources {services}))) (n2 (selCount (sortedSources {services})))
-  at call(Or) assert [one-child-per-service-with-a-selector] (=> (distinctKeys {services}) (= (slen {filters}) (selCount (sortedSources {services}))))
-  at call(Or) assert [src-is-the-canonical-enumeration] (=> (distinctKeys {services}) (forall ((q Int)) (=> (and (<= 0 q) (< q (slen {filters})))
+  at call(Or) assert [step:one-child-per-service-with-a-selector] (=> (distinctKeys {services}) (= (slen {filters}) (selCount (sortedSources {services}))))
+  at call(Or) assert [step:src-is-the-canonical-enumeration] (=> (distinctKeys {services}) (forall ((q Int)) (=> (and (<= 0 q) (< q (slen {filters})))
         (= (select src q) (select (selIdxs (sortedSources {services})) q)))))
-  at call(Or) assert [children-of-the-canonical-enumeration] (=> (distinctKeys {services}) (forall ((q Int)) (=> (and (<= 0 q) (< q (slen {filters})))
+  at call(Or) assert [step:children-of-the-canonical-enumeration] (=> (distinctKeys {services}) (forall ((q Int)) (=> (and (<= 0 q) (< q (slen {filters})))
         (svcChild (select (sarr {filters}) q) (select (sarr (sortedSources {services})) (select (selIdxs (sortedSources {services})) q))))))
   ensures [canonical-children] (=> (distinctKeys {services}) (let ((kids (|unbox!filter.orFilter| result)) (t (sortedSources {services})))
         (and (= (slen kids) (selCount t))
